@@ -133,14 +133,28 @@ fn array_part(ctx: &mut Ctx) {
     let kind = ctx.rng.below(5);
     array_case(ctx, n, kind);
   }
+  // larger sides: more than 1024 grid points, counts that are not multiples of powers of two
+  for _ in 0..(if ctx.thorough { 40 } else { 6 }) {
+    let n = ctx.rng.between(33, 70);
+    let kind = ctx.rng.below(5);
+    array_case(ctx, n, kind);
+  }
   // rectangular grids / arbitrary pairs of arrays / length mismatches (panic path)
   for _ in 0..ctx.n / 3 {
     general_case(ctx, maxn);
   }
-  // Gaussian closed form on fine grids
-  let ng = if ctx.thorough { 40 } else { 8 };
+  // Gaussian closed form: fine grids (64, 96), a spread of sides incl. N² > 1024 not a multiple of
+  // 1024, and small sides (coarse grids: tolerance = the actual discretisation error)
+  let ng = if ctx.thorough { 60 } else { 14 };
   for j in 0..ng {
-    let side = if ctx.thorough && j % 4 == 0 { 96 } else { 64 };
+    let side = match j % 7 {
+      0 => 64,
+      1 => if ctx.thorough { 96 } else { 48 },
+      2 | 3 => ctx.rng.between(33, 100),
+      4 => ctx.rng.between(2, 12),
+      5 => ctx.rng.between(13, 32),
+      _ => *ctx.rng.pick(&[33usize, 40, 45, 50, 63, 65, 70, 95, 97, 100]),
+    };
     gaussian_case(ctx, side);
   }
 }
@@ -167,7 +181,7 @@ fn array_case(ctx: &mut Ctx, n: usize, kind: usize) {
   };
   let g = swap_arr(&f, n);
   ctx.count(&format!("array/{}", name));
-  ctx.count(&format!("array/side={}", if n <= 2 { n.to_string() } else if n <= 12 { "3-12".into() } else { "13+".into() }));
+  ctx.count(&format!("array/side={}", if n <= 2 { n.to_string() } else if n <= 12 { "3-12".into() } else if n <= 32 { "13-32".into() } else { "33+".into() }));
   let span = (b - a).abs();
   let gs = grid_str(&fs);
   let gt = grid_txt(&fs);
@@ -258,12 +272,26 @@ fn general_case(ctx: &mut Ctx, maxn: usize) {
   let delays = [tau, -tau];
   let ser = guard(|| hom_rate_series(fs, &f, &g, delays.iter().map(|t| *t * S).collect::<Vec<Time>>()));
   ctx.k("hom_rate_series", &format!("{} 2 {} {} {}", gs, fls(&delays), cxs(&f), cxs(&g)), &out_fls(&ser));
+  // S: a delay series equals the individually computed rates — also for unrelated arrays
+  if lf >= len && lg >= len && len > 0 && jsi_norm(&f) > 0.0 {
+    let ind: Vec<Option<f64>> = delays.iter().map(|t| guard(|| hom_rate(fs, &f, &g, *t * S, None))).collect();
+    let ok = match &ser {
+      Some(v) => v.len() == 2 && v.iter().zip(ind.iter()).all(|(x, y)| matches!(y, Some(y) if close(*x, *y, 1e-12, 1e-13))),
+      None => false,
+    };
+    ctx.s("C09.series", ok, "hom/series-eq-individual-general", &format!("nx={} ny={} {} lf={} lg={} delays={:?} seedcase={}", nx, ny, grid_txt(&fs), lf, lg, delays, ctx.seed));
+  }
   // empty delay list never touches the arrays
   let ser0 = guard(|| hom_rate_series(fs, &f, &g, Vec::<Time>::new()));
   ctx.k("hom_rate_series", &format!("{} 0 {} {}", gs, cxs(&f), cxs(&g)), &out_fls(&ser0));
 }
 
-/// separable Gaussian of r.m.s. amplitude width σ with the phase exp(i t0 (ωi − ωs)/2)
+/// separable Gaussian of r.m.s. amplitude width σ with the phase exp(i t0 (ωi − ωs)/2) on a grid
+/// spanning ±5σ.  "Equals ½(1 − exp(−σ²(τ−t0)²/2)) to discretisation accuracy": the discretisation
+/// error of the grid is computed here independently of the code (the exact discrete sum
+/// Σ a²a² cos(Δ(τ−t0)) / Σ a²a² of theorem `gaussian_reduction`, evaluated in plain Rust from the
+/// envelope), and the implementation must be as close to the closed form as that error allows
+/// (factor 2) plus 1e-9 for rounding.
 fn gaussian_case(ctx: &mut Ctx, side: usize) {
   let w0 = ctx.rng.range(1.0e15, 2.0e15);
   let sigma = ctx.rng.log_range(1e11, 1e13);
@@ -276,32 +304,43 @@ fn gaussian_case(ctx: &mut Ctx, side: usize) {
   let pts: Vec<(Frequency, Frequency)> = fs.as_steps().into_iter().collect();
   let amp = |w: f64| (-(w - w0) * (w - w0) / (2.0 * sigma * sigma)).exp();
   let val = |ws: f64, wi: f64| C::from_polar(amp(ws) * amp(wi), t0 * (wi - ws) / 2.0);
-  let f: Vec<C> = pts.iter().map(|(s, i)| val(*(*s / (RAD / S)), *(*i / (RAD / S)))).collect();
+  let raw_pts: Vec<(f64, f64)> = pts.iter().map(|(s, i)| (*(*s / (RAD / S)), *(*i / (RAD / S)))).collect();
+  let f: Vec<C> = raw_pts.iter().map(|(s, i)| val(*s, *i)).collect();
   // exchanged-argument counterpart, evaluated (not permuted)
-  let g: Vec<C> = pts.iter().map(|(s, i)| val(*(*i / (RAD / S)), *(*s / (RAD / S)))).collect();
-  ctx.count(&format!("gaussian/side={}", side));
+  let g: Vec<C> = raw_pts.iter().map(|(s, i)| val(*i, *s)).collect();
+  ctx.count(&format!("gaussian/side={}", if side < 13 { "2-12" } else if side <= 32 { "13-32" } else if side * side % 1024 == 0 { "33+/multiple-of-1024" } else { "33+" }));
   let gs = grid_str(&fs);
-  // delays with |τ − t0|σ ≤ 8 : far below the aliasing limit π/h = 0.314·(side−1)/σ
+  // delays: the dip, zero, the far wings |τ − t0|σ = 8, and random ones with |τ − t0|σ ≤ 4
   let mut delays = vec![t0, 0.0, t0 + 8.0 / sigma, t0 - 8.0 / sigma];
   for _ in 0..4 {
     delays.push(t0 + ctx.rng.range(-4.0, 4.0) / sigma);
   }
+  let wsum: f64 = raw_pts.iter().map(|(s, i)| (amp(*s) * amp(*i)).powi(2)).sum();
   for &tau in &delays {
     let r = guard(|| hom_rate(fs, &f, &g, tau * S, None));
     let x = sigma * (tau - t0);
     let expect = 0.5 * (1.0 - (-x * x / 2.0).exp());
-    let ok = matches!(r, Some(v) if (v - expect).abs() <= 1e-6);
+    // exact discrete sum on this grid (oracle for the discretisation error only)
+    let isum: f64 = raw_pts.iter().map(|(s, i)| (amp(*s) * amp(*i)).powi(2) * ((i - s) * (tau - t0)).cos()).sum();
+    let discrete = 0.5 * (1.0 - isum / wsum);
+    let disc_err = (discrete - expect).abs();
+    let tol = 2.0 * disc_err + 1e-9;
+    let ok = matches!(r, Some(v) if (v - expect).abs() <= tol);
     ctx.s(
       "C09.gaussian",
       ok,
       "hom/gaussian-closed-form",
-      &format!("side={} w0={:e} sigma={:e} t0={:e} tau={:e} rate={:?} expect={:e}", side, w0, sigma, t0, tau, r, expect),
+      &format!(
+        "side={} w0={:e} sigma={:e} t0={:e} tau={:e} rate={:?} expect={:e} discretisation_error={:e} tol={:e}",
+        side, w0, sigma, t0, tau, r, expect, disc_err, tol
+      ),
     );
   }
-  // one correspondence case on the fine grid
-  let tau = delays[4];
-  let r = guard(|| hom_rate(fs, &f, &g, tau * S, None));
-  ctx.k("hom_rate", &format!("{} {} N {} {}", gs, fl(tau), cxs(&f), cxs(&g)), &out_fl(r));
+  // correspondence on this grid at two non-zero delays
+  for &tau in &[delays[4], delays[2]] {
+    let r = guard(|| hom_rate(fs, &f, &g, tau * S, None));
+    ctx.k("hom_rate", &format!("{} {} N {} {}", gs, fl(tau), cxs(&f), cxs(&g)), &out_fl(r));
+  }
 }
 
 // ------------------------------------------------------------------------------------------------
